@@ -177,6 +177,32 @@ theorem C04_toAngle_onCircle (thr : K) (M : Mat K) (hM : IsRotation M) (r : Radi
     simp only [toAngle, toAngleB, hb, if_false, atan2n, hg', hrp0, Ang.OnCircle]
     refine ⟨?_, ?_, ?_⟩ <;> field_simp <;> grind
 
+/-- `Angle @ Angle` and `Angle @ Matrix`: the Euler angle produced for the product represents
+exactly the product rotation (off the gimbal branch). -/
+theorem C04_angle_product (thr : K) (a : Ang K) (ha : a.OnCircle) (B : Mat K) (hB : IsRotation B)
+    (r : Radii K)
+    (hh : r.h * r.h = (matMul (fromAngle a) B).aa * (matMul (fromAngle a) B).aa
+        + (matMul (fromAngle a) B).ab * (matMul (fromAngle a) B).ab)
+    (hp : r.rp * r.rp = (matMul (fromAngle a) B).ac * (matMul (fromAngle a) B).ac + r.h * r.h)
+    (hr : r.rr * r.rr = (matMul (fromAngle a) B).bc * (matMul (fromAngle a) B).bc
+        + (matMul (fromAngle a) B).cc * (matMul (fromAngle a) B).cc)
+    (hp0 : 0 ≤ r.rp) (hr0 : 0 ≤ r.rr) (hthr0 : 0 ≤ thr) (hthr : thr < r.h) :
+    fromAngle (toAngle thr (matMul (fromAngle a) B) r) = matMul (fromAngle a) B :=
+  C04_to_from thr _ (C04_rotation_mul _ _ (C04_rotation a ha) hB) r hh hp hr hp0 hr0 hthr0 hthr
+
+/-- **Gimbal lock**: when the horizontal length `h` of the forward axis is not above the
+threshold (any threshold below 1; the code's is 0.001), `_to_angle` takes yaw from the left axis
+and sets roll to 0; converting back gives a matrix every entry of which is within `2·h` of the
+original. -/
+theorem C04_gimbal (thr : K) (M : Mat K) (hM : IsRotation M) (r : Radii K)
+    (hh : r.h * r.h = M.aa * M.aa + M.ab * M.ab)
+    (hp : r.rp * r.rp = M.ac * M.ac + r.h * r.h)
+    (hg : r.rg * r.rg = M.ba * M.ba + M.bb * M.bb)
+    (h0 : 0 ≤ r.h) (hp0 : 0 ≤ r.rp) (hg0 : 0 ≤ r.rg)
+    (hb : ¬ thr < r.h) (hthr1 : thr < 1) :
+    (fromAngle (toAngle thr M r)).Within M (2 * r.h) :=
+  gimbal_bound thr M hM r hh hp hg h0 hp0 hg0 hb hthr1
+
 /-- **`inverse()` returns a left inverse** whenever it does not raise (`eps` is the literal
 `0.00001`; any non-negative value works). -/
 theorem C04_inverse (eps : K) (he : 0 ≤ eps) (M N : Mat K)
@@ -316,6 +342,10 @@ example : dispatch true .vec .vec .op = none := by decide
 /-- `inverse()` succeeds on a concrete rotation (yaw with cos 3/5, sin 4/5) and gives the transpose. -/
 example : gaussJordanInverse Gen.Rot.eps (fromAngle (⟨1, 0, 3/5, 4/5, 1, 0⟩ : Ang Rat))
     = some (transpose (fromAngle ⟨1, 0, 3/5, 4/5, 1, 0⟩)) := by decide +kernel
+/-- The gimbal branch is reached by a concrete rotation: pitch with cos 8000/16000001 (< 0.001),
+yaw 3-4-5, roll 0; the radii are rational there. -/
+example : (toAngleB Gen.Rot.thr (fromAngle (⟨8000/16000001, 15999999/16000001, 3/5, 4/5, 1, 0⟩ : Ang Rat))
+    ⟨8000/16000001, 1, 8000/16000001, 1⟩).2 = false := by decide +kernel
 /-- The general branch of `_to_angle` on a concrete rotation (pitch 3-4-5, yaw 5-12-13, roll 8-15-17). -/
 example : toAngle Gen.Rot.thr (fromAngle (⟨3/5, 4/5, 5/13, 12/13, 8/17, 15/17⟩ : Ang Rat)) ⟨3/5, 1, 3/5, 1⟩
     = ⟨3/5, 4/5, 5/13, 12/13, 8/17, 15/17⟩ := by decide +kernel
